@@ -59,3 +59,117 @@ fn finalize_short_smoke() {
         assert!(h.length().value() < 170);
     }
 }
+
+// ---- bounded differential twin of update (probe)
+use crate::buckets::constrained::{FuzzyHashBucketMapper, FuzzyHashBucketsInfo};
+use crate::hash::checksum::inner::InnerChecksum;
+type GN = InnerGen<1, 32, 128, 35, 72>;
+
+fn ref_step(g: &mut GN, b4: u8) {
+    if g.tail_len < 4 {
+        g.tail[g.tail_len as usize] = b4;
+        g.tail_len += 1;
+        return;
+    }
+    if g.len >= 0xffff_fffc { return; }
+    g.len += 1;
+    let (b0, b1, b2, b3) = (g.tail[0], g.tail[1], g.tail[2], g.tail[3]);
+    g.checksum.update(b4, b3);
+    let m = |s: u8, a: u8, b: u8, c: u8| FuzzyHashBucketsInfo::<128>::b_mapping(s, a, b, c);
+    for idx in [m(2, b4, b3, b2), m(3, b4, b3, b1), m(5, b4, b2, b1), m(7, b4, b2, b0), m(11, b4, b3, b0), m(13, b4, b1, b0)] {
+        g.buckets.buckets[idx as usize] = g.buckets.buckets[idx as usize].wrapping_add(1);
+    }
+    g.tail = [b1, b2, b3, b4];
+}
+
+#[kani::proof]
+#[kani::unwind(8)]
+fn update_twin_normal() {
+    let mut g: GN = Default::default();
+    g.buckets.buckets = kani::any();
+    g.len = kani::any();
+    g.tail = kani::any();
+    g.tail_len = kani::any();
+    kani::assume(g.tail_len <= 4 && (g.tail_len == 4 || g.len == 0) && g.len <= 0xffff_fffc);
+    let mut r = g.clone();
+    let data: [u8; 6] = kani::any();
+    let n: usize = kani::any();
+    kani::assume(n <= 6);
+    let k: usize = kani::any();
+    kani::assume(k <= n);
+    g.update(&data[..k]);
+    g.update(&data[k..n]);
+    let mut i = 0;
+    while i < n { ref_step(&mut r, data[i]); i += 1; }
+    assert!(g.len == r.len && g.tail_len == r.tail_len);
+    assert!(g.checksum == r.checksum);
+    let j: usize = kani::any(); kani::assume(j < 256);
+    assert!(g.buckets.buckets[j] == r.buckets.buckets[j]);
+    let t: usize = kani::any(); kani::assume(t < 4);
+    if (t as u32) < g.tail_len { assert!(g.tail[t] == r.tail[t]); }
+}
+
+// ---- full functional finalize obligation (probe), generic over variant via macro
+fn ref_count(b: &[u32], v: u32) -> (usize, usize) {
+    let mut lt = 0usize; let mut le = 0usize; let mut i = 0;
+    while i < b.len() { if b[i] < v { lt += 1; } if b[i] <= v { le += 1; } i += 1; }
+    (lt, le)
+}
+fn is_order_stat(b: &[u32], k: usize, v: u32) -> bool { let (lt, le) = ref_count(b, v); lt <= k && k < le }
+
+macro_rules! finalize_full {
+    ($name:ident, $ck:literal, $body:literal, $n:literal, $bytes:literal, $str:literal, $min:literal, $minc:literal, $minnz:literal, $unw:literal) => {
+        #[kani::proof]
+        #[kani::unwind($unw)]
+        #[kani::stub(<[u32]>::select_nth_unstable, select_nth_model)]
+        fn $name() {
+            let mut g: InnerGen<$ck, $body, $n, $bytes, $str> = Default::default();
+            g.buckets.buckets = kani::any();
+            g.len = kani::any();
+            g.tail_len = kani::any();
+            kani::assume(g.tail_len <= 4 && (g.tail_len == 4 || g.len == 0));
+            let int_mode: bool = kani::any();
+            let small: bool = kani::any();
+            let half: bool = kani::any();
+            let quarter: bool = kani::any();
+            let conservative: bool = kani::any();
+            let mut opts = GeneratorOptions::new();
+            opts.pure_integer_qratio_computation(int_mode);
+            opts.allow_small_size_files(small);
+            opts.allow_statistically_weak_buckets_half(half);
+            opts.allow_statistically_weak_buckets_quarter(quarter);
+            if conservative { opts.length_processing_mode(crate::length::DataLengthProcessingMode::Conservative); }
+            let r = g.finalize_with_options(&opts);
+            // ---- reference
+            let n64 = g.len as u64 + g.tail_len as u64;
+            let too_large = n64 > 4224281216;
+            let too_small = n64 < $min || (conservative && n64 < $minc);
+            if too_large { assert!(r == Err(GeneratorError::TooLargeInput)); return; }
+            if too_small && !small { assert!(r == Err(GeneratorError::TooSmallInput)); return; }
+            let b: &[u32] = &g.buckets.buckets[..$n];
+            // quartiles chosen by the reference as order statistics: witnesses
+            let (q1, q2, q3): (u32, u32, u32) = (kani::any(), kani::any(), kani::any());
+            kani::assume(is_order_stat(b, $n / 4 - 1, q1));
+            kani::assume(is_order_stat(b, $n / 2 - 1, q2));
+            kani::assume(is_order_stat(b, $n - $n / 4 - 1, q3));
+            let mut nz = 0usize; let mut i = 0; while i < $n { if b[i] != 0 { nz += 1; } i += 1; }
+            if q3 == 0 && !quarter { assert!(r == Err(GeneratorError::BucketsAreThreeQuarterEmpty)); return; }
+            if nz < $minnz && !(half || quarter) { assert!(r == Err(GeneratorError::BucketsAreHalfEmpty)); return; }
+            let (q1, q2, q3) = if q3 == 0 { (1, 1, 1) } else { (q1, q2, q3) };
+            let h = r.unwrap();
+            let (e1, e2) = if int_mode {
+                ((((q1 as u64 * 100) / q3 as u64) % 16) as u8, (((q2 as u64 * 100) / q3 as u64) % 16) as u8)
+            } else {
+                ((((q1.wrapping_mul(100) as f32) / q3 as f32) as u32 % 16) as u8, (((q2.wrapping_mul(100) as f32) / q3 as f32) as u32 % 16) as u8)
+            };
+            assert!(h.qratios().q1ratio() == e1 && h.qratios().q2ratio() == e2);
+            assert!(h.checksum().data() == g.checksum.data());
+            let k: usize = kani::any(); kani::assume(k < $n);
+            let d = if b[k] > q3 { 3 } else if b[k] > q2 { 2 } else if b[k] > q1 { 1 } else { 0 };
+            use crate::hash::body::FuzzyHashBody;
+            assert!(h.body().quartile(k) == d);
+        }
+    };
+}
+finalize_full!(finalize_full_short, 1, 12, 48, 15, 32, 10, 10, 18, 50);
+finalize_full!(finalize_full_normal, 1, 32, 128, 35, 72, 50, 128, 65, 130);
